@@ -16,6 +16,7 @@ import Driver.Parse
 import Driver.Bridge
 import Driver.Entry
 import Driver.Pflag
+import Driver.Rawcache
 
 open Lean Driver
 
@@ -42,6 +43,7 @@ def dispatch (op : String) (inp out : Json) : Json :=
   | "trimdesc" => runTrimdescOp inp out
   | "abs" => runAbsOp inp out
   | "pflagparse" => runPflagParseOp inp out
+  | "rawcache" => runRawcacheOp inp out
   | "timeoutrace" => runTimeoutOp inp out
   | _ => Json.mkObj [("same", Json.bool false), ("diff", Json.str s!"unknown op {op}"), ("fails", Json.arr #[])]
 
